@@ -1273,8 +1273,19 @@ package cose
 //@   ensures unknown [C15]: !result1 ==> result0 == 0
 //@   modifies frame [C18]: nothing
 
+// the decoded COSE_Key map (domain D, values V) is well typed: kty an integer other than 0, kid / Base IV byte strings,
+// alg an integer, no key_ops (keys with key_ops are not covered by the completeness clause), all
+// labels int64 or tstr, and crv an int64 for EC2 / OKP keys
+//@ spec keyMapOK(D AnySet, V AnyMap) Bool = D[int64(1)] && any_canint(V[int64(1)]) && any_intval(V[int64(1)]) != 0
+//@         && (D[int64(2)] ==> any_isbytes(V[int64(2)])) && (D[int64(3)] ==> any_canint(V[int64(3)])) && (D[int64(5)] ==> any_isbytes(V[int64(5)]))
+//@         && !D[int64(4)]
+//@         && (forall q any :: D[q] ==> q is int64 || q is string)
+//@         && ((any_intval(V[int64(1)]) == 1 || any_intval(V[int64(1)]) == 2) && D[int64(-1)] ==> V[int64(-1)] is int64)
+
 //@ func (*Key).UnmarshalCBOR
 //@   requires nonnil: k != nil
+//@   ensures complete [C14, C15]: dec_shape_err(decMode, bytes(data), "map[any]any") == nil && keyMapOK(dec_map_dom(decMode, bytes(data)), dec_map_val(decMode, bytes(data)))
+//@         && k.Type != 0 && keyShapeOK(k.Type, k.Params, k.Algorithm) ==> err == nil
 //@   ensures accept [C06, C14, C15, C19]: err == nil ==> k.Type != 0 && keyShapeOK(k.Type, k.Params, k.Algorithm)
 //@         && dec_shape_err(decMode, bytes(data), "map[any]any") == nil
 //@         && int64(1) in dec_map_dom(decMode, bytes(data)) && any_canint(dec_map_val(decMode, bytes(data))[int64(1)]) && k.Type == any_intval(dec_map_val(decMode, bytes(data))[int64(1)])
@@ -1285,6 +1296,7 @@ package cose
 //@   loop 1 invariant ops_kept: key_ops == entry(key_ops) && k.Type == entry(k.Type) && k.ID == entry(k.ID) && k.Algorithm == entry(k.Algorithm)
 //@   loop 2 invariant params_labels [C14, C15]: k.Params != nil && fresh(k.Params) && (forall q any :: q in k.Params ==> (q is int64 || q is string) && q in ranged)
 //@   loop 2 invariant params_copied [C14, C15]: forall q any :: q in seen ==> q in k.Params && ((q is int64 && q.(int64) == -1 && (k.Type == 2 || k.Type == 1)) ? (k.Params[q] is Curve && ranged[q] is int64 && k.Params[q].(Curve) == ranged[q].(int64)) : k.Params[q] == ranged[q])
+//@   loop 2 invariant src [C14, C15]: forall q any :: q in ranged ==> dec_map_dom(decMode, bytes(data))[q] && ranged[q] == dec_map_val(decMode, bytes(data))[q]
 //@   loop 2 invariant tmp_kept: mapdom(ranged) == entry(mapdom(ranged)) && mapval(ranged) == entry(mapval(ranged)) && ranged != k.Params
 //@   loop 2 invariant fields_kept: k.Type == entry(k.Type) && k.ID == entry(k.ID) && k.Algorithm == entry(k.Algorithm) && k.Ops == entry(k.Ops) && k.BaseIV == entry(k.BaseIV) && k.Params == entry(k.Params)
 
